@@ -4,7 +4,35 @@ LEVEL = {"C01": "exploration"}
 
 HDR_INV = ["InvIff", "InvValue", "InvIvPiv", "InvDup", "InvUnprot", "InvProt", "Emit"]
 
+MSG_INV = ["InvIff", "InvValue", "InvNestedDup", "Emit"]
+
+MAP_INV = ["InvIff", "InvValue", "InvDup", "Emit"]
+
 JOBS = {
+    "C10": [
+        {"module": "MC_KeyDecode", "spec": "Spec", "invariants": MAP_INV + ["InvOpsOrder"],
+         "quick": {"constants": {"MaxLen": 2, "MaxKeys": 3}, "timeout": 300},
+         "thorough": {"constants": {"MaxLen": 3, "MaxKeys": 4}, "timeout": 3000},
+         "rule": "every COSE_Key map over the entry palette up to MaxLen entries and every key set up to MaxKeys elements "
+                 "(each state = one item); non-trivial = non-empty container"},
+    ],
+    "C18": [
+        {"module": "MC_Cwt", "spec": "Spec", "invariants": MAP_INV + ["InvRoundTrip"],
+         "quick": {"constants": {"MaxLen": 2}, "timeout": 300},
+         "thorough": {"constants": {"MaxLen": 3}, "timeout": 3000},
+         "rule": "every claims map over the entry palette up to MaxLen entries; every KDF-context array up to arity MaxLen and "
+                 "every PartyInfo / SuppPubInfo sub-array up to arity 4 over slot palettes; non-trivial = non-empty container"},
+        {"module": "MC_Kdf", "spec": "Spec", "invariants": ["InvIff", "InvValue", "InvRoundTrip", "Emit"],
+         "quick": {"constants": {"MaxLen": 5}, "timeout": 300},
+         "thorough": {"constants": {"MaxLen": 7}, "timeout": 3000}},
+    ],
+    "C09": [
+        {"module": "MC_MsgDecode", "spec": "Spec", "invariants": MSG_INV,
+         "quick": {"constants": {"MaxLen": 5, "Wide": "FALSE"}, "timeout": 300},
+         "thorough": {"constants": {"MaxLen": 7, "Wide": "TRUE"}, "timeout": 3000},
+         "rule": "every array of arity 0..MaxLen over per-position slot palettes (each state = one array), decoded as all "
+                 "eight structure types by value API and two wire encodings; non-trivial = non-empty array"},
+    ],
     "C08": [
         {"module": "MC_HeaderDecode", "spec": "Spec", "invariants": HDR_INV,
          "quick": {"constants": {"MaxLen": 2}, "timeout": 300},
